@@ -266,6 +266,9 @@ func checkC12(c *Ctx) {
 		if i%5 == 0 {
 			groups = append(groups, group{[]int{i}, "edited"})
 		}
+		if i%4 == 1 {
+			groups = append(groups, group{[]int{i}, "signatures-rebuilt"})
+		}
 	}
 	for k := 0; k < len(files)/3; k++ {
 		n := 2 + r0.Intn(3)
@@ -306,6 +309,9 @@ func checkC12(c *Ctx) {
 					}
 					files = append(files, srcFile{fmt.Sprintf("template-fragment-%d/dense-%d", mi, off), src})
 					groups = append(groups, group{[]int{len(files) - 1}, "dense"})
+					if _, isFunc := m.Decls[0].(*dst.FuncDecl); isFunc && bytes.Contains(src, []byte("func (")) {
+						groups = append(groups, group{[]int{len(files) - 1}, "dense+signatures-rebuilt"})
+					}
 				}
 			}
 		}
@@ -329,6 +335,13 @@ func checkC12(c *Ctx) {
 			switch g.mode {
 			case "markers":
 				c12Markers(df, r)
+			case "signatures-rebuilt", "dense+signatures-rebuilt":
+				// hand-built signatures: a fresh FuncType around the old parameter lists (no Func flag, no decorations)
+				for _, dcl := range df.Decls {
+					if fd, ok := dcl.(*dst.FuncDecl); ok {
+						fd.Type = &dst.FuncType{TypeParams: fd.Type.TypeParams, Params: fd.Type.Params, Results: fd.Type.Results}
+					}
+				}
 			case "edited":
 				r.Shuffle(len(df.Decls), func(a, b int) {
 					if _, ok := df.Decls[a].(*dst.GenDecl); ok && df.Decls[a].(*dst.GenDecl).Tok == token.IMPORT {
